@@ -6,7 +6,7 @@
 (* owned by the queried name with RDATA = the IPv4 address the query was   *)
 (* sent to, all section counts matching the records present.               *)
 (***************************************************************************)
-EXTENDS Integers, Sequences, FiniteSets
+EXTENDS Integers, Sequences, FiniteSets, SequencesExt
 
 DU16(b, o) == b[o + 1] * 256 + b[o + 2]
 
@@ -30,9 +30,13 @@ NameEnd(p, o, total) ==
          ELSE NameEnd(p, o + 1 + l, total + 1 + l)
 
 (* the implementation's reading of a name: everything up to the first NUL  *)
+(* (looked for in the next 256 bytes first: a plain name is no longer)     *)
 NulEnd(p, o) ==
-    LET z == { k \in (o + 1)..Len(p) : p[k] = 0 } IN
-    IF z = {} THEN -1 ELSE CHOOSE k \in z : \A m \in z : k <= m
+    LET lim == IF o + 256 < Len(p) THEN o + 256 ELSE Len(p)
+        z == { k \in (o + 1)..lim : p[k] = 0 }
+    IN IF z # {} THEN CHOOSE k \in z : \A m \in z : k <= m
+       ELSE LET y == { k \in (lim + 1)..Len(p) : p[k] = 0 } IN
+            IF y = {} THEN -1 ELSE CHOOSE k \in y : \A m \in y : k <= m
 
 (* does the name [o, e) contain a zero byte before its terminator?  *)
 PlainName(p, o) == NameEnd(p, o, 0) # -1 /\ NameEnd(p, o, 0) = NulEnd(p, o)
@@ -40,59 +44,72 @@ PlainName(p, o) == NameEnd(p, o, 0) # -1 /\ NameEnd(p, o, 0) = NulEnd(p, o)
 (* walk n questions from offset o: [st, q, end] with st "ok" | "trunc" (the message *)
 (* ends inside the declared questions) | "odd" (a name is not made of plain labels),  *)
 (* q the sequence of <<name start, name end, type, class>>, end the offset reached   *)
-RECURSIVE Questions(_, _, _, _)
+QStep(p, w) ==
+    IF w.st # "ok" THEN w
+    ELSE LET o == w.end
+             z == NulEnd(p, o)
+         IN IF z = -1 \/ z + 4 > Len(p) THEN [ w EXCEPT !.st = "trunc" ]
+            ELSE LET e == NameEnd(p, o, 0) IN
+                 IF e = -1 \/ e # z THEN [ w EXCEPT !.st = "odd" ]
+                 ELSE [ st |-> "ok", q |-> Append(w.q, << o, e, DU16(p, e), DU16(p, e + 2) >>), end |-> e + 4 ]
+
 Questions(p, o, n, acc) ==
-    IF n = 0 THEN [ st |-> "ok", q |-> acc, end |-> o ]
-    ELSE IF NulEnd(p, o) = -1 \/ NulEnd(p, o) + 4 > Len(p) THEN [ st |-> "trunc", q |-> acc, end |-> o ]
-    ELSE IF ~PlainName(p, o) THEN [ st |-> "odd", q |-> acc, end |-> o ]
-    ELSE LET e == NameEnd(p, o, 0) IN
-         Questions(p, e + 4, n - 1, Append(acc, << o, e, DU16(p, e), DU16(p, e + 2) >>))
+    FoldLeft(LAMBDA w, i : QStep(p, w), [ st |-> "ok", q |-> acc, end |-> o ], [ i \in 1..n |-> i ])
 
 QList(p) == Questions(p, 12, DnsQd(p), << >>)
 
-DnsTruncated(p) == Len(p) < 12 \/ (DnsQd(p) > 0 /\ DnsQd(p) <= 64 /\ QList(p).st = "trunc")
+QCap == 1024       \* questions walked (more: unspecified)
+QListC(p) == IF Len(p) >= 12 /\ DnsQd(p) <= QCap THEN QList(p) ELSE [ st |-> "odd", q |-> << >>, end |-> 12 ]
+
+DnsTruncatedW(p, w) == Len(p) < 12 \/ (DnsQd(p) > 0 /\ DnsQd(p) <= QCap /\ w.st = "trunc")
+DnsTruncated(p) == DnsTruncatedW(p, QListC(p))
 
 (* clean query: only IN/A questions, plain names, nothing else in the message *)
-DnsCleanQuery(p) ==
+DnsCleanQueryW(p, w) ==
     /\ Len(p) >= 12
     /\ DnsQR(p) = 0
-    /\ DnsQd(p) >= 1 /\ DnsQd(p) <= 64
+    /\ DnsQd(p) >= 1 /\ DnsQd(p) <= QCap
     /\ DnsAn(p) = 0 /\ DnsNs(p) = 0 /\ DnsAr(p) = 0
-    /\ LET w == QList(p) IN
-       /\ w.st = "ok"
-       /\ w.end = Len(p)                                          \* message ends after the last question
-       /\ \A i \in 1..Len(w.q) : w.q[i][3] = 1 /\ w.q[i][4] = 1    \* type A, class IN
+    /\ w.st = "ok"
+    /\ w.end = Len(p)                                          \* message ends after the last question
+    /\ 2 * Len(p) + 10 * DnsQd(p) + 16 <= 65535                 \* the answer fits a UDP datagram in an IPv4 packet
+    /\ \A i \in 1..Len(w.q) : w.q[i][3] = 1 /\ w.q[i][4] = 1    \* type A, class IN
+DnsCleanQuery(p) == DnsCleanQueryW(p, QListC(p))
 
 (* a well-delimited message one of whose questions is not IN/A *)
-DnsHasOtherQuestion(p) ==
-    /\ Len(p) >= 12 /\ DnsQd(p) >= 1 /\ DnsQd(p) <= 64
-    /\ LET w == QList(p) IN
-       /\ w.st = "ok"
-       /\ \E i \in 1..Len(w.q) : w.q[i][3] # 1 \/ w.q[i][4] # 1
+DnsHasOtherQuestionW(p, w) ==
+    /\ Len(p) >= 12 /\ DnsQd(p) >= 1 /\ DnsQd(p) <= QCap
+    /\ w.st = "ok"
+    /\ \E i \in 1..Len(w.q) : w.q[i][3] # 1 \/ w.q[i][4] # 1
+DnsHasOtherQuestion(p) == DnsHasOtherQuestionW(p, QListC(p))
 
 DnsIsResponse(p) == Len(p) >= 12 /\ DnsQR(p) = 1
 
-(* walk the answers of reply r: n records from offset o; each must be owned by the *)
-(* corresponding question's name (same bytes, or a compression pointer to it)      *)
-RECURSIVE AnswersOK(_, _, _, _, _, _)
-AnswersOK(p, r, q, i, o, dst) ==
-    IF i > Len(q) THEN o = Len(r)
-    ELSE LET qs == q[i][1]
-             qe == q[i][2]
+(* walk the answers of reply r from offset o: each must be owned by the corresponding *)
+(* question's name (same bytes, or a compression pointer to it); a fold over the       *)
+(* questions carrying the offset reached (-1 = failed)                                 *)
+AnswerStep(p, r, dst, o, qi) ==
+    IF o = -1 THEN -1
+    ELSE LET qs == qi[1]
+             qe == qi[2]
              nlen == qe - qs
              ptr == o + 2 <= Len(r) /\ r[o + 1] \div 64 = 3 /\ ((r[o + 1] % 64) * 256 + r[o + 2]) = qs
              same == o + nlen <= Len(r) /\ SubSeq(r, o + 1, o + nlen) = SubSeq(p, qs + 1, qe)
              ne == IF same THEN o + nlen ELSE IF ptr THEN o + 2 ELSE -1
-         IN IF ne = -1 \/ ne + 10 + 4 > Len(r) THEN FALSE
-            ELSE /\ DU16(r, ne) = 1 /\ DU16(r, ne + 2) = 1          \* A, IN
-                 /\ DU16(r, ne + 8) = 4                             \* RDLENGTH
-                 /\ SubSeq(r, ne + 11, ne + 14) = dst
-                 /\ AnswersOK(p, r, q, i + 1, ne + 14, dst)
+         IN IF ne = -1 \/ ne + 10 + 4 > Len(r) THEN -1
+            ELSE IF /\ DU16(r, ne) = 1 /\ DU16(r, ne + 2) = 1          \* A, IN
+                    /\ DU16(r, ne + 8) = 4                             \* RDLENGTH
+                    /\ SubSeq(r, ne + 11, ne + 14) = dst
+                 THEN ne + 14 ELSE -1
+
+AnswersOK(p, r, q, i, o, dst) ==
+    FoldLeft(LAMBDA oo, qi : AnswerStep(p, r, dst, oo, qi), o, SubSeq(q, i, Len(q))) = Len(r)
 
 DnsAnswerFails(p, r, dst) ==
     IF Len(r) < 12 THEN { "dns-header" }
-    ELSE LET q == QList(p).q
-             qend == QList(p).end
+    ELSE LET w == QListC(p)
+             q == w.q
+             qend == w.end
          IN
     (IF DnsId(r) = DnsId(p) THEN {} ELSE { "dns-id" })
     \cup (IF DnsQR(r) = 1 THEN {} ELSE { "dns-qr" })
